@@ -2,6 +2,7 @@ package props
 
 import (
 	"bytes"
+	"crypto/tls"
 	"encoding/json"
 	"fmt"
 	"strings"
@@ -188,6 +189,56 @@ func c03CheckExample(cs c03Case) (clause, detail string) {
 	return "", ""
 }
 
+// c03ConfigCheck runs one request under a non-default server configuration and
+// compares reply and handler calls with the default configuration's (base).
+func c03ConfigCheck(req []byte, base *soloResult, cfg string) (clause, detail string) {
+	d := srv.NewDouble()
+	catalogueDouble(d)
+	s := srv.NewServer(d)
+	input := req
+	skip := 0
+	if strings.Contains(cfg, "requirepass") {
+		s.SetRequirePass("Secret1")
+		installPassword(s, "Secret1")
+		input = concat(grammar.Encode([]string{"AUTH", "Secret1"}), req)
+		skip = 1
+	}
+	if strings.Contains(cfg, "tracer") {
+		s.SetTracer(srv.NewTracer())
+	}
+	var st *tls.ConnectionState
+	if strings.Contains(cfg, "tls") {
+		st = &tls.ConnectionState{HandshakeComplete: true, Version: tls.VersionTLS13}
+	}
+	out := srv.RunConnTLS(s, seq.NewConn(seq.Script{Input: input}), st)
+	if cl, dt := crashClause(out); cl != "" {
+		return cl, dt
+	}
+	vals, derr := resp.DecodeAll(out.Reply)
+	if derr != nil {
+		return "reply-malformed", derr.Error()
+	}
+	if len(vals) != skip+len(base.Reply) {
+		return "reply-count", fmt.Sprintf("%d replies under %s, %d by default: %s", len(vals)-skip, cfg, len(base.Reply), valuesString(vals))
+	}
+	for i, want := range base.Reply {
+		if !vals[skip+i].Equal(want) {
+			return "reply-differs", fmt.Sprintf("under %s the reply is %s, by default %s", cfg, vals[skip+i], want)
+		}
+	}
+	var calls []srv.Call
+	for _, cl := range d.Calls {
+		if cl.Method != "Auth" || skip == 0 {
+			calls = append(calls, cl)
+		}
+	}
+	got := srv.CallKeys(calls, false)
+	if strings.Join(got, ";") != strings.Join(base.Calls, ";") {
+		return "handler-calls-differ", fmt.Sprintf("under %s the handler calls are %v, by default %v", cfg, got, base.Calls)
+	}
+	return "", ""
+}
+
 func c03Key(cs c03Case, clause string) string {
 	// cause key: the label of the first request whose solo behaviour is at
 	// fault if any, else the labels involved (commands only).
@@ -355,6 +406,26 @@ func c03Run(c *fw.Ctx) {
 			direct(cc)
 		}
 	}
+	// configuration invariance: every catalogue request must get the reply and cause the
+	// handler calls of the default configuration when the server requires a password
+	// (the client AUTHs first), has a tracer installed, or got the connection over TLS
+	for _, it := range cat {
+		if !c.Mine() || strings.HasPrefix(it.Label, "AUTH|") {
+			continue
+		}
+		base := solo(it.Bytes)
+		if base.Crash != "" {
+			continue // reported by the singles pass
+		}
+		for _, cfg := range []string{"requirepass", "tracer", "tls", "requirepass+tracer+tls"} {
+			c.Eval()
+			c.Nontrivial()
+			if clause, detail := c03ConfigCheck(it.Bytes, base, cfg); clause != "" {
+				name := it.Label[:strings.IndexByte(it.Label, '|')]
+				c.Violation("C03|config:"+cfg+"|"+name+"|"+clause, detail+" request="+it.Label+" input="+trunc(it.Bytes, 80), c03Case{Requests: [][]byte{it.Bytes}, Labels: []string{it.Label}, Store: "config:" + cfg})
+			}
+		}
+	}
 	// arity ladder: one request with N arguments between two small ones
 	for _, n := range []int{255, 256, 257, 1023, 1024, 1025, 1500, 4097} {
 		for _, form := range []string{"DEL", "MGET", "MSET", "SADD", "RPUSH", "HMSET", "ZADD"} {
@@ -448,6 +519,11 @@ func c03Replay(raw json.RawMessage) (string, bool, error) {
 	if err := json.Unmarshal(raw, &cs); err != nil {
 		return "", false, err
 	}
+	if strings.HasPrefix(cs.Store, "config:") {
+		base := solo(cs.Requests[0])
+		clause, detail := c03ConfigCheck(cs.Requests[0], base, strings.TrimPrefix(cs.Store, "config:"))
+		return fmt.Sprintf("config=%s request=%v clause=%q %s", cs.Store, cs.Labels, clause, detail), clause != "", nil
+	}
 	if cs.Store == "example" {
 		clause, detail := c03CheckExample(cs)
 		return fmt.Sprintf("example-store pipeline=%v stride=%d clause=%q %s", cs.Labels, cs.Stride, clause, detail), clause != "", nil
@@ -460,7 +536,7 @@ func init() {
 	fw.Register(&fw.Prop{
 		ID:    "C03",
 		Level: "exploration",
-		Rule:  "request catalogue from the independent grammar: every registered command with its valid shapes (each option word at least once, list arities 1..3, lower-case name), one surplus-argument shape, every ill-formed shape of C10, unknown commands, handler errors, QUIT variants. Pipelines: every single request; all ordered pairs and triples over one representative per executor family + QUIT + unknown + argument error + handler error. Delivery: whole, EVERY 2-way split, 1-byte (singles, pairs; triples: whole, request-aligned, 1-byte; thorough: every 2-way split too, and all pipelines of four representatives whole, request-aligned and 1-byte). The reply/liveness invariant (#complete replies written == #complete requests delivered, in order, replies equal to the request's solo reply) is evaluated at every transport Read and at end of stream; a loop-iteration budget turns a spin into a verdict. Size ladder: the pipeline PING, ECHO <L bytes>, SET k <L bytes>, ECHO x for L = 2^k-1, 2^k, 2^k+1 (k=6..16, thorough 17) and 10^k-1..10^k+1 with frame-looking content: whole, every 2-way split within 8 bytes of each structural position (request boundaries, start and end of the large payload), strides 1/3/4096/32768. Arity ladder: DEL/MGET/MSET/SADD/RPUSH/HMSET/ZADD with 255..4097 elements between PING and ECHO. Repeat part: every catalogue request (plus KEYS/SCAN MATCH with ill-formed and valid glob patterns) three times on one connection (X X PING X) against the bundled example store holding three elements per type, whole and 1-byte: one well-formed reply per request, PING answered at its position.",
+		Rule:  "request catalogue from the independent grammar: every registered command with its valid shapes (each option word at least once, list arities 1..3, lower-case name), one surplus-argument shape, every ill-formed shape of C10, unknown commands, handler errors, QUIT variants. Pipelines: every single request; all ordered pairs and triples over one representative per executor family + QUIT + unknown + argument error + handler error. Delivery: whole, EVERY 2-way split, 1-byte (singles, pairs; triples: whole, request-aligned, 1-byte; thorough: every 2-way split too, and all pipelines of four representatives whole, request-aligned and 1-byte). The reply/liveness invariant (#complete replies written == #complete requests delivered, in order, replies equal to the request's solo reply) is evaluated at every transport Read and at end of stream; a loop-iteration budget turns a spin into a verdict. Size ladder: the pipeline PING, ECHO <L bytes>, SET k <L bytes>, ECHO x for L = 2^k-1, 2^k, 2^k+1 (k=6..16, thorough 17) and 10^k-1..10^k+1 with frame-looking content: whole, every 2-way split within 8 bytes of each structural position (request boundaries, start and end of the large payload), strides 1/3/4096/32768. Configuration invariance: every catalogue request under {requirepass with AUTH first, tracer installed, connection over TLS, all three} must get the default configuration's reply and handler calls. Arity ladder: DEL/MGET/MSET/SADD/RPUSH/HMSET/ZADD with 255..4097 elements between PING and ECHO. Repeat part: every catalogue request (plus KEYS/SCAN MATCH with ill-formed and valid glob patterns) three times on one connection (X X PING X) against the bundled example store holding three elements per type, whole and 1-byte: one well-formed reply per request, PING answered at its position.",
 		Assumptions: []string{
 			"replies are compared with the reply the same request gets when sent alone (stateless recording double with content-derived tokens)",
 			"pipelines longer than 3 are not explored",
